@@ -66,21 +66,25 @@ func loggerFor(cfg int) logger.Interface {
 	return nil
 }
 
-func pairKey(strict bool, lg int) int {
-	if lg == 3 {
-		lg = 0 // db.Debug() is derived from the Discard handle
+func pairKey(c pg.Case) int {
+	k := c.Logger
+	if k == 3 {
+		k = 0 // db.Debug() is derived from the Discard handle
 	}
-	k := lg
-	if strict {
+	if c.Strict {
 		k += 4
+	}
+	if c.QueryFields == 1 {
+		k += 8
 	}
 	return k
 }
 
-func openPair(strict bool, lg int) [2]*h.Env {
+func openPair(c pg.Case) [2]*h.Env {
+	qf := c.QueryFields == 1
 	return [2]*h.Env{
-		open(&gorm.Config{AllowGlobalUpdate: !strict, Logger: loggerFor(lg)}),
-		open(&gorm.Config{AllowGlobalUpdate: !strict, DryRun: true, Logger: loggerFor(lg)}),
+		open(&gorm.Config{AllowGlobalUpdate: !c.Strict, QueryFields: qf, Logger: loggerFor(c.Logger % 3)}),
+		open(&gorm.Config{AllowGlobalUpdate: !c.Strict, QueryFields: qf, DryRun: true, Logger: loggerFor(c.Logger % 3)}),
 	}
 }
 
@@ -90,10 +94,10 @@ func newWorker() *worker {
 
 // use selects (opening it on first use) the pair of handles of a configuration.
 func (w *worker) use(c pg.Case) {
-	k := pairKey(c.Strict, c.Logger)
+	k := pairKey(c)
 	pr, ok := w.pairs[k]
 	if !ok {
-		pr = openPair(c.Strict, c.Logger%3)
+		pr = openPair(c)
 		w.pairs[k] = pr
 	}
 	w.a, w.b = pr[0], pr[1]
@@ -103,7 +107,7 @@ func (w *worker) use(c pg.Case) {
 func (w *worker) renew(c pg.Case) {
 	w.a.Close()
 	w.b.Close()
-	delete(w.pairs, pairKey(c.Strict, c.Logger))
+	delete(w.pairs, pairKey(c))
 	w.use(c)
 }
 
@@ -152,6 +156,10 @@ func (w *worker) run(p *pg.Prog, mode int) (res runResult) {
 		root := env.DB
 		if p.Case.Logger == 3 {
 			root = root.Debug()
+		}
+		if p.Case.QueryFields == 2 {
+			// an earlier Session switches QueryFields on; the DryRun session / ToSQL must inherit it
+			root = root.Session(&gorm.Session{QueryFields: true})
 		}
 		k := p.Case.Prefix
 		withAGU := func(d *gorm.DB) *gorm.DB {
@@ -265,8 +273,8 @@ func sameVars(a, b []interface{}) bool {
 }
 
 type stats struct {
-	programs, compared, bothNothing, unconvertible, dryWriteTx, realErr, dryErr, sampled                                                                          int64
-	reads, writes, multi, multiRealStmts, classifiedPanics, bothError, bothMissingWhere, strict, writeNotReached, writeCompared, loggerCompared, prefixed, modelU int64
+	programs, compared, bothNothing, unconvertible, dryWriteTx, realErr, dryErr, sampled                                                                                       int64
+	reads, writes, multi, multiRealStmts, classifiedPanics, bothError, bothMissingWhere, strict, writeNotReached, writeCompared, loggerCompared, prefixed, modelU, queryFields int64
 }
 
 func tags(p *pg.Prog) []string {
@@ -280,6 +288,9 @@ func tags(p *pg.Prog) []string {
 	}
 	if p.Case.Prefix > 0 {
 		out = append(out, "receiver-prefix")
+	}
+	if p.Case.QueryFields > 0 {
+		out = append(out, fmt.Sprintf("query-fields:%d", p.Case.QueryFields))
 	}
 	out = append(out, "model:"+pg.ModelName[p.Case.Model])
 	if p.Case.Strict {
@@ -570,6 +581,7 @@ func main() {
 		strict int // 0: AllowGlobalUpdate by config; 1: off; 2: off in the config, on by Session
 		logger int // 0 Discard, 1 Info+ParameterizedQueries, 2 Silent, 3 db.Debug()
 		prefix int // number of leading calls applied to the receiver before DryRun/ToSQL is entered
+		qf     int // QueryFields: 0 off, 1 by Config, 2 by an earlier Session
 	}
 	var items []item
 	addItems := func(shapes []pg.Shape, dev int, r1 []pg.Class, strict int) {
@@ -579,7 +591,7 @@ func main() {
 			stride++
 		}
 		for i := 0; i < n; i++ {
-			items = append(items, item{shapes[(i*stride)%n], dev, r1, strict % 10, (strict / 10) % 10, strict / 100})
+			items = append(items, item{shapes[(i*stride)%n], dev, r1, strict % 10, (strict / 10) % 10, (strict / 100) % 10, strict / 1000})
 		}
 	}
 	both := []int{pg.ModelT, pg.ModelS}
@@ -613,6 +625,15 @@ func main() {
 		addItems(pg.Shapes(both, pg.Seqs(all, 0, 1), guarded(pg.FinsFor(false, true))), 0, nil, 2)
 		// the model with integer tracked-time / serializer / default / pointer fields
 		addItems(pg.Shapes([]int{pg.ModelU}, pg.Seqs(all, 0, 1), pg.FinsFor(false, true)), 0, nil, 0)
+		// QueryFields by Config and by an earlier Session: the read finishers (and lookup-then-write ones)
+		var readers []*pg.Fin
+		for _, f := range pg.FinsFor(false, true) {
+			if f.Kind == "query" || f.WriteStep != "" {
+				readers = append(readers, f)
+			}
+		}
+		addItems(pg.Shapes(all3, pg.Seqs(all, 0, 1), readers), 0, nil, 1000)
+		addItems(pg.Shapes(all3, pg.Seqs(all, 0, 1), readers), 0, nil, 2000)
 		// receiver prefix: the leading call(s) are applied before Session{DryRun} / ToSQL is taken
 		addItems(pg.Shapes(all3, pg.Seqs(all, 1, 1), pg.FinsFor(false, true)), 0, nil, 100)
 		addItems(pg.CyclicShapes(all3, pg.Seqs(all2, 2, 2), pg.FinsFor(false, true), 2), 0, nil, 100)
@@ -672,7 +693,10 @@ func main() {
 				it := items[n]
 				it.shape.ClassVectors(it.dev, it.r1, nil, func(classes []int) {
 					p := it.shape.Prog(classes)
-					p.Case.Strict, p.Case.SessionAGU, p.Case.Logger, p.Case.Prefix = it.strict > 0, it.strict == 2, it.logger, it.prefix
+					p.Case.Strict, p.Case.SessionAGU, p.Case.Logger, p.Case.Prefix, p.Case.QueryFields = it.strict > 0, it.strict == 2, it.logger, it.prefix, it.qf
+					if it.qf > 0 {
+						atomic.AddInt64(&st.queryFields, 1)
+					}
 					if p.Case.Prefix > len(p.Ops) {
 						return
 					}
@@ -701,6 +725,9 @@ func main() {
 		if st.bothMissingWhere < 50 {
 			run.HarnessError("vacuous: only %d condition-less updates/deletes refused alike by DryRun and real run", st.bothMissingWhere)
 		}
+		if st.queryFields < 1000 {
+			run.HarnessError("vacuous: only %d programs with QueryFields", st.queryFields)
+		}
 		if st.prefixed < 1000 || st.modelU < 1000 {
 			run.HarnessError("vacuous: programs with a receiver prefix: %d, on model U: %d", st.prefixed, st.modelU)
 		}
@@ -718,6 +745,7 @@ func main() {
 		}
 	}
 	run.Assume("programs of package proggram: records without nested association values; for finishers with several main statements or none exposed on the returned handle (CreateInBatches, CreateBatchSize, FirstOrCreate, FindInBatches, Transaction / Begin blocks) only the sends-nothing half is checked; a Transaction/Begin block requested by the program itself may BEGIN/COMMIT in every mode")
+	run.Assume("QueryFields by Config and by an earlier Session: read finishers and lookup-then-write finishers with <=1 call on the three models")
 	run.Assume("logger configurations: logger.Discard for all programs; stock logger Info+ParameterizedQueries, stock logger Silent and db.Debug() for programs with <=1 call")
 	run.Assume("lookup-then-write finishers: the write statement is compared only when the real lookup found no row (what a found row contains is data DryRun cannot know)")
 	run.Assume("handle configurations: AllowGlobalUpdate by Config (all programs), off, and on by Session (update/delete finishers); when the real run refuses an operation and sends nothing, DryRun must return the same error")
@@ -727,7 +755,7 @@ func main() {
 	run.Finish(map[string]interface{}{
 		"evaluations":         st.programs,
 		"distinct_nontrivial": texts.Len(),
-		"rule":                "every program is run as Session{DryRun:true}, Config.DryRun, ToSQL and for real from identical handles/data (counter clock reset, re-seed after writes): " + plan + "; all of these on handles with AllowGlobalUpdate, and every update/delete finisher additionally (<=1 call, and 2 calls with default classes) on handles WITHOUT AllowGlobalUpdate and with AllowGlobalUpdate switched on by Session; every program with <=1 call additionally on handles with the stock logger at Info with ParameterizedQueries, the stock logger at Silent, and db.Debug() (all writing to io.Discard); every program with <=1 call also on model U (integer tracked-time columns in seconds/millis/nanos, serializer, default-value and pointer fields); every 1-call program (3 models) and every 2-call sequence (pairwise: 2+1 finishers and a model chosen cyclically per sequence) also with the first call / both calls applied to the RECEIVER before Session{DryRun:true} / ToSQL is taken from it; lookup-then-write finishers (FirstOrCreate / First,Take,Find + Save,Create into a pre-filled destination) compare their main INSERT instead of the first statement; non-trivial = distinct statement texts that reached the driver in the real run and were compared (text and converted values) with the DryRun statement",
+		"rule":                "every program is run as Session{DryRun:true}, Config.DryRun, ToSQL and for real from identical handles/data (counter clock reset, re-seed after writes): " + plan + "; all of these on handles with AllowGlobalUpdate, and every update/delete finisher additionally (<=1 call, and 2 calls with default classes) on handles WITHOUT AllowGlobalUpdate and with AllowGlobalUpdate switched on by Session; every program with <=1 call additionally on handles with the stock logger at Info with ParameterizedQueries, the stock logger at Silent, and db.Debug() (all writing to io.Discard); every read / lookup-then-write program with <=1 call also with QueryFields switched on by Config and by an earlier Session; every program with <=1 call also on model U (integer tracked-time columns in seconds/millis/nanos, serializer, default-value and pointer fields); every 1-call program (3 models) and every 2-call sequence (pairwise: 2+1 finishers and a model chosen cyclically per sequence) also with the first call / both calls applied to the RECEIVER before Session{DryRun:true} / ToSQL is taken from it; lookup-then-write finishers (FirstOrCreate / First,Take,Find + Save,Create into a pre-filled destination) compare their main INSERT instead of the first statement; non-trivial = distinct statement texts that reached the driver in the real run and were compared (text and converted values) with the DryRun statement",
 		"samples":             samples.List(),
 		"exhaustive":          timedOut == 0 && tooMany == 0,
 		"shapes_total":        len(items),
@@ -748,6 +776,7 @@ func main() {
 		"lookup_then_write_programs_write_step_not_reached":                 st.writeNotReached,
 		"programs_compared_under_a_non_discard_logger":                      st.loggerCompared,
 		"programs_with_a_receiver_prefix":                                   st.prefixed,
+		"programs_with_query_fields_by_config_or_earlier_session":           st.queryFields,
 		"programs_on_the_model_with_transforming_fields":                    st.modelU,
 		"read_programs":                     st.reads,
 		"write_programs":                    st.writes,
